@@ -498,6 +498,157 @@ def chain_stream(ctx, cuqi, rng, n):
                         pass
 
 
+def adapt_stream(ctx, cuqi, rng, n):
+    """step-size selection: `_FindGoodEpsilon`, the dual-averaging recursion and the schedule by which both interfaces use
+    epsilon / epsilon_bar during warm-up and sampling (Model/C08Adapt.lean).  The acceptance statistics fed to the model are
+    the ones the implementation produced; sqrt(k) and k**-0.75 are computed here."""
+    from cuqi.experimental.mcmc import NUTS as ENUTS
+    from cuqi.sampler import NUTS as LNUTS
+
+    class RecE(ENUTS):
+        def step(self):
+            self._rec_eps.append(float(self._epsilon))
+            acc = super().step()
+            self._rec_alpha.append(float(self._current_alpha_ratio))
+            return acc
+        def tune(self, skip_len, update_count):
+            self._rec_tune.append((int(skip_len), int(update_count), len(self._rec_eps)))
+            super().tune(skip_len, update_count)
+            self._rec_after.append((float(self._epsilon), float(self._epsilon_bar)))
+
+    class RecL(LNUTS):
+        def _BuildTree(self, *a, **k):
+            self._depth += 1
+            try:
+                out = super()._BuildTree(*a, **k)
+            finally:
+                self._depth -= 1
+            if self._depth == 0:
+                self._last = float(out[-2]) / float(out[-1])
+            return out
+        def _update_run_diagnostic_attributes(self, k, nt, eps, eb):
+            self._alphas.append(self._last)
+            super()._update_run_diagnostic_attributes(k, nt, eps, eb)
+
+    LOG2 = math.log(2.0)
+    jobs = []
+    for i in range(n):
+        c = gen_case(rng, False)
+        c["md"] = rng.choice([0, 1, 2, 3]); c["int_x0"] = False
+        if c["wall"] is not None and c["wall_kind"] == "nan" and rng.random() < 0.5:
+            c["wall_kind"] = rng.choice(["inf", "-inf"])
+        iface = "exp" if i % 2 == 0 else "legacy"
+        Nb = rng.choice([1, 2, 3, 4, 6, 8, 10, 12]); N = rng.choice([1, 2, 3, 4])
+        tf = rng.choice([0.1, 0.25, 0.5, 1.0, 0.34])
+        delta = rng.choice([0.6, 0.8, 0.3, 0.65])
+        given = (iface == "exp" and rng.random() < 0.4)
+        eps_given = rng.choice([1 / 8, 1 / 4, 1 / 2, 3 / 4]) if given else None
+        steps = Nb + N + 2
+        normals = [[rng.randint(-12, 12) / 8 for _ in range(c["d"])] for _ in range(steps + 1)]
+        exps = [rng.randint(1, 40) / 16 for _ in range(steps + 1)]
+        us = [rng.randint(1, 1023) / 1024 for _ in range(steps * (3 * 2 ** (c["md"] + 1) + 4))]
+        jobs.append(dict(c=c, iface=iface, Nb=Nb, N=N, tf=tf, delta=delta, eps_given=eps_given, normals=normals, exps=exps, us=us))
+    # FindGoodEpsilon on the model (start momentum = first scripted normal)
+    wall_of = lambda c: "none" if c["wall"] is None else q(c["wall"]) + ":" + c.get("wall_kind", "nan")
+    fe = ctx.lean.drive(["findeps %s %s %s %s %s %s 200" % (qm(j["c"]["P"]), qv(j["c"]["b"]), wall_of(j["c"]), qv(j["c"]["x"]), qv(j["normals"][0]), q(LOG2))
+                         for j in jobs])
+    runs = []
+    for j, fe_out in zip(jobs, fe):
+        c, iface = j["c"], j["iface"]
+        target, calls = make_target(cuqi, c["P"], c["b"], c["wall"], c.get("wall_kind", "nan"))
+        x0 = np.array(c["x"], dtype=float)
+        if not math.isfinite(float(target.logpdf(x0))):
+            continue
+        sc = Script(j["normals"], j["exps"], j["us"])
+        desc = {"iface": iface, "d": c["d"], "P": c["P"], "b": c["b"], "x": c["x"], "wall": c["wall"], "wall_kind": c["wall_kind"], "md": c["md"],
+                "Nb": j["Nb"], "N": j["N"], "tune_freq": j["tf"], "opt_acc_rate": j["delta"], "step_size": j["eps_given"], "r0": j["normals"][0]}
+        rec = {}
+        try:
+            with quiet(), scripted(sc):
+                if iface == "exp":
+                    s = RecE(target, initial_point=x0, max_depth=c["md"], step_size=j["eps_given"], opt_acc_rate=j["delta"])
+                    s._rec_eps, s._rec_alpha, s._rec_tune, s._rec_after = [], [], [], []
+                    s._ensure_initialized()
+                    rec["eps0"] = float(s._epsilon)
+                    s.warmup(j["Nb"], tune_freq=j["tf"])
+                    s.sample(j["N"])
+                    rec.update(eps=list(s._rec_eps), alpha=list(s._rec_alpha), tune=list(s._rec_tune), after=list(s._rec_after),
+                               interval=max(int(j["tf"] * j["Nb"]), 1), final_bar=float(s._epsilon_bar))
+                else:
+                    s = RecL(target, x0=x0, max_depth=c["md"], adapt_step_size=True, opt_acc_rate=j["delta"])
+                    s._depth, s._last, s._alphas = 0, float("nan"), []
+                    s.sample(j["N"], j["Nb"])
+                    rec.update(eps=[float(v) for v in s.epsilon_list], bar=[float(v) for v in s.epsilon_bar_list], alpha=list(s._alphas))
+                    rec["eps0"] = rec["eps"][0]
+        except NameError:
+            continue        # 'NaN potential func': the chain reached the wall; judged by the transition stream
+        except Exception as ex:
+            ctx.disagree(f"NUTS:{iface}:adapt:crash", desc, "runs", repr(ex)[:200], "warm-up + sampling raised"); continue
+        if sc.exhausted or any(not math.isfinite(a) for a in rec["alpha"]):
+            continue
+        runs.append((j, desc, rec, fe_out))
+    lines = []
+    for j, desc, rec, fe_out in runs:
+        Nb, N, delta = j["Nb"], j["N"], j["delta"]
+        le0, mu = math.log(rec["eps0"]), math.log(10 * rec["eps0"])
+        ks = range(1, Nb + 2)
+        sq = qv([math.sqrt(k) for k in ks]); et = qv([float(k) ** (-0.75) for k in ks])
+        if j["iface"] == "exp":
+            lines.append("adaptexp %s %s %s %d %d %d %s %s %s" % (q(le0), q(mu), q(delta), Nb, rec["interval"], N, qv(rec["alpha"][:Nb]) if Nb else "_", sq, et))
+        else:
+            lines.append("adaptleg %s %s %s %d %d %s %s %s" % (q(le0), q(mu), q(delta), Nb, N - 1, qv(rec["alpha"][:Nb]) if Nb else "_", sq, et))
+    outs = ctx.lean.drive(lines)
+    hist = {"exp": 0, "legacy": 0, "findeps_compared": 0, "findeps_differs": 0, "tunes": 0}
+    for (j, desc, rec, fe_out), mo in zip(runs, outs):
+        iface, Nb, N, delta = j["iface"], j["Nb"], j["N"], j["delta"]
+        key = f"NUTS:{iface}:adapt"
+        ctx.case(f"adapt-{iface}", desc); hist[iface] += 1
+        eps = rec["eps"]; bad = False
+        # ---- implementation-only oracle -------------------------------------------------------------------------------
+        if not all(math.isfinite(e) and e > 0 for e in eps):
+            ctx.fail(key, desc, "positive finite step sizes", eps, "a transition ran with a non-positive or non-finite step size"); bad = True
+        samp = eps[Nb:] if iface == "exp" else eps[Nb:]
+        # after warm-up nothing adapts any more: transitions 2.. of the sampling phase all use ONE step size (epsilon_bar), and
+        # the first uses the last adapted value; a step size that keeps changing depends on the chain's past
+        if len(samp) >= 3 and not all(v == samp[1] for v in samp[1:]):
+            ctx.fail(key, desc, "one fixed step size for every transition after the first sampling transition", samp,
+                     "the step size still changes during the sampling phase (adaptation after warm-up)"); bad = True
+        if iface == "exp":
+            if len(samp) >= 2 and Nb >= 1 and not close(samp[1], rec["final_bar"], 1e-12):
+                ctx.fail(key, desc, {"epsilon_bar after warm-up": rec["final_bar"]}, samp, "sampling does not use the averaged step size produced by warm-up"); bad = True
+            # closed form of the running average (theorem hbar_closed): eps after update m = exp(mu - sqrt(m)/gamma * sum(delta - a_i)/(m+t0))
+            mu = math.log(10 * rec["eps0"]); acc = 0.0
+            for m, ((skip, uc, nsteps), (e_after, b_after)) in enumerate(zip(rec["tune"], rec["after"]), start=1):
+                hist["tunes"] += 1
+                if uc != m - 1 or nsteps != m * rec["interval"]:
+                    ctx.fail(key, desc, {"update": m, "after transitions": m * rec["interval"]}, {"update_count": uc, "after transitions": nsteps},
+                             "dual-averaging updates are not numbered 1,2,3,... at the tuning interval"); bad = True; break
+                acc += delta - rec["alpha"][nsteps - 1]
+                want = math.exp(mu - (math.sqrt(m) / 0.05) * acc / (m + 10))
+                if not close(e_after, want, 1e-9):
+                    ctx.fail(key, desc, {"update": m, "epsilon": want}, e_after, "step size after a dual-averaging update is not exp(mu - sqrt(k)/gamma * mean deficit)"); bad = True; break
+        # ---- tie ------------------------------------------------------------------------------------------------------
+        if mo == "bad-op":
+            ctx.note(f"model refused adapt case {desc}"); continue
+        f = [t.strip() for t in mo.split("|")]
+        used = [math.exp(float(Fraction(v))) for v in pv(f[0])] if f[0] != "_" else []
+        if len(used) != len(eps) or not vclose(used, eps, 1e-9):
+            ctx.disagree(key, desc, {"step sizes used": used}, {"step sizes used": eps}, "sequence of step sizes used by the transitions differs")
+            if not bad:
+                pass
+        elif iface == "exp" and f[2] != "unset" and not close(math.exp(float(Fraction(f[2]))), rec["final_bar"], 1e-9):
+            ctx.disagree(key, desc, {"epsilon_bar": math.exp(float(Fraction(f[2])))}, {"epsilon_bar": rec["final_bar"]}, "final averaged step size differs")
+        elif iface == "legacy" and Nb >= 1 and f[2] != "unset" and not close(math.exp(float(Fraction(f[2]))), rec["bar"][-1] if N > 1 else math.exp(float(Fraction(f[2]))), 1e-9):
+            ctx.disagree(key, desc, {"epsilon_bar": math.exp(float(Fraction(f[2])))}, {"epsilon_bar": rec["bar"][-1]}, "final averaged step size differs")
+        # ---- FindGoodEpsilon: which power of two is returned is not demanded by the property; a difference is noted, not alarmed
+        if j["eps_given"] is None and fe_out not in ("none", "bad-op"):
+            hist["findeps_compared"] += 1
+            if not close(float(Fraction(fe_out)), rec["eps0"], 1e-12):
+                hist["findeps_differs"] += 1
+                ctx.note(f"FindGoodEpsilon: model {fe_out} vs implementation {rec['eps0']} at {desc}")
+    ctx.extra_cov["c08_adapt"] = hist
+
+
 def run(ctx):
     cuqi = import_cuqi()
     thorough = ctx.tier == "thorough"
@@ -606,6 +757,7 @@ def run(ctx):
     ctx.extra_cov["c08_hist"] = hist
     ctx.extra_cov["skipped_small_margin"] = skipped
     chain_stream(ctx, cuqi, rng, 90 if not thorough else 900)
+    adapt_stream(ctx, cuqi, rng, 60 if not thorough else 600)
     oracle_uniform(ctx, cuqi, rng, 6 if not thorough else 40)
     oracle_u0(ctx, cuqi, rng, 3 if not thorough else 20)
     oracle_divergence(ctx, cuqi, rng, 3 if not thorough else 20)
